@@ -117,6 +117,33 @@ def search(ctx, escalate=False):
         n += 1
         if abs(slope - der) > 1e-15:
             fail("C19:compressibility-slope-vs-derivative:%s" % name, "compressibility slope = stored derivative", slope=slope, der=der)
+    # user-defined interpolated property whose rows are given in any order (descending, shuffled): knots, linear in between,
+    # linear beyond the table, integral = trapezoid of the sorted table
+    from pandapipes.properties.fluids import FluidPropertyInterExtra
+    for _ in range(reps):
+        k = int(rng.integers(3, 8))
+        xs = np.sort(rng.uniform(250, 400, k))
+        xs = xs + np.arange(k) * 1e-3
+        ys = rng.uniform(0.5, 5.0, k)
+        order = rng.permutation(k) if rng.random() < 0.6 else np.arange(k)[::-1]
+        n += 1
+        try:
+            prop = FluidPropertyInterExtra(xs[order].copy(), ys[order].copy())
+            at = np.asarray(prop.get_at_value(xs), float)
+            q = rng.uniform(xs[0] - 20, xs[-1] + 20, 6)
+            got = np.asarray(prop.get_at_value(q), float)
+        except Exception as e:
+            fail("C19:user-table-raises", "user-defined interpolated property", exc=repr(e)[:120], order=order.tolist())
+            continue
+        if not np.allclose(at, ys, rtol=1e-12, atol=1e-12):
+            fail("C19:user-table-knots", "tabulated values reproduced at the tabulated points", order=order.tolist(),
+                 got=at[:3].tolist(), expected=ys[:3].tolist())
+        ref = np.interp(q, xs, ys)
+        lo, hi = q < xs[0], q > xs[-1]
+        ref[lo] = ys[0] + (q[lo] - xs[0]) * (ys[1] - ys[0]) / (xs[1] - xs[0])
+        ref[hi] = ys[-1] + (q[hi] - xs[-1]) * (ys[-1] - ys[-2]) / (xs[-1] - xs[-2])
+        if not np.allclose(got, ref, rtol=1e-10, atol=1e-10):
+            fail("C19:user-table-interpolation", "linear between / beyond the tabulated points", order=order.tolist())
     # constant / linear property classes, all argument kinds
     for _ in range(reps):
         v, s, o = (float(x) for x in rng.uniform(-5, 5, 3))
